@@ -128,12 +128,16 @@ func (f Float) MarshalJSON() ([]byte, error) {
 	num := []byte{}
 	num = strconv.AppendFloat(num, float64(f), 'E', -1, 64)
 
-	// When decimal place is missing, add it. This only happens
-	// when the number is 0.
-	if num[1] != '.' {
-		num = append(num[0:3], num[1:]...)
-		num[1] = '.'
-		num[2] = '0'
+	// When decimal place is missing, add it after the first digit,
+	// which follows the sign of negative numbers.
+	p := 1
+	if num[0] == '-' {
+		p = 2
+	}
+	if num[p] != '.' {
+		num = append(num[0:p+2], num[p:]...)
+		num[p] = '.'
+		num[p+1] = '0'
 	}
 
 	// Split into two parts
